@@ -128,6 +128,15 @@ func judgeRoundTrip(v *Val) (o rtOutcome) {
 	if p, msg, site := guard(func() { knxnet.Pack(dirty, sent) }); p {
 		return fail("panic:"+site, "encoding a %s value into a used buffer panicked in %s: %s", v.label(), site, msg)
 	}
+	// ... and a transmit buffer is usually larger than the frame: the encoding is the first Size()
+	// octets whatever room follows them (knxnet.Pack documents "at least Size() octets")
+	roomy := make([]byte, len(enc)+37)
+	if p, msg, site := guard(func() { knxnet.Pack(roomy, sent) }); p {
+		return fail("panic:"+site, "encoding a %s value into a buffer with room to spare panicked in %s: %s", v.label(), site, msg)
+	}
+	if d := firstDiff(enc, roomy[:len(enc)]); d >= 0 {
+		return fail("encoding-depends-on-buffer-size:"+v.label(), "a %s value encoded into a buffer of exactly Size() octets and into one with 37 octets to spare differs at offset %d (%#02x vs %#02x)", v.label(), d, enc[d], roomy[d])
+	}
 	if d := firstDiff(enc, dirty); d >= 0 {
 		var got2 knxnet.Service
 		_, err2 := knxnet.Unpack(dirty, &got2)
